@@ -17,6 +17,8 @@ class FuncVal:
     module: ModuleInfo
     cls: Optional[ClassInfo]
     bindings: Dict[str, "FuncVal"] = field(default_factory=dict)   # free variable -> function bound in this mode
+    # undetermined branch decisions of the ENTRY method under which this closure is handed out: ((test text, taken), ...)
+    entry_conds: Tuple[Tuple[str, bool], ...] = ()
 
     @property
     def name(self) -> str:
@@ -41,6 +43,7 @@ class ModeEvaluator:
         self.strict = strict
         self.results: List[FuncVal] = []
         self.depth = 0
+        self.cond_stack: List[Tuple[str, bool]] = []
 
     # values: ('dt', name) | ('bool', b) | FuncVal | ('method', FunctionDef, owner) | UNKNOWN
     def run(self, method: str) -> List[FuncVal]:
@@ -73,6 +76,13 @@ class ModeEvaluator:
 
     def exec_block(self, stmts, env, rets, fn, owner) -> bool:
         """returns False when the block always terminates"""
+        mark = len(self.cond_stack)
+        try:
+            return self._exec_block(stmts, env, rets, fn, owner)
+        finally:
+            del self.cond_stack[mark:]
+
+    def _exec_block(self, stmts, env, rets, fn, owner) -> bool:
         for st in stmts:
             if isinstance(st, ast.FunctionDef):
                 env[st.name] = ("def", st)
@@ -89,9 +99,15 @@ class ModeEvaluator:
             elif isinstance(st, ast.If):
                 t = self.truth(st.test, env, fn, owner)
                 cont = False
+                record = t is None and self.depth == 1
                 if t is not False:
                     e1 = dict(env)
-                    if self.exec_block(st.body, e1, rets, fn, owner):
+                    if record:
+                        self.cond_stack.append((norm(st.test), True))
+                    alive = self.exec_block(st.body, e1, rets, fn, owner)
+                    if record:
+                        self.cond_stack.pop()
+                    if alive:
                         cont = True
                         env1 = e1
                     else:
@@ -100,7 +116,12 @@ class ModeEvaluator:
                     env1 = None
                 if t is not True:
                     e2 = dict(env)
-                    if self.exec_block(st.orelse, e2, rets, fn, owner):
+                    if record:
+                        self.cond_stack.append((norm(st.test), False))
+                    alive = self.exec_block(st.orelse, e2, rets, fn, owner)
+                    if record:
+                        self.cond_stack.pop()
+                    if alive:
                         cont = True
                         env2 = e2
                     else:
@@ -109,6 +130,10 @@ class ModeEvaluator:
                     env2 = None
                 if not cont:
                     return False
+                if record and env1 is None and t is not False:
+                    self.cond_stack.append((norm(st.test), False))    # `if c: return ...` -- the rest runs under not c
+                elif record and env2 is None and t is not True:
+                    self.cond_stack.append((norm(st.test), True))
                 # merge: prefer the surviving branch
                 for e in (env1, env2):
                     if e is not None:
@@ -229,7 +254,7 @@ class ModeEvaluator:
             elif isinstance(v, list) and v and all(isinstance(x, FuncVal) for x in v) and len(v) == 1:
                 bindings[name] = v[0]
         m = owner.module if owner is not None else self.ci.module
-        return FuncVal(node, m, owner, bindings)
+        return FuncVal(node, m, owner, bindings, tuple(self.cond_stack))
 
 
 def closures_for(repo: Repo, ci: ClassInfo, method: str, dt: Optional[str], strict: Optional[bool]) -> List[FuncVal]:
